@@ -722,4 +722,68 @@ theorem ghostFrom_run_window (g : Ghost) (evs : List Event)
     rw [this.1, this.2, he.1, he.2]
     exact ⟨by omega, rfl⟩
 
+/-- After an emitted broadcast packet nothing is remembered. -/
+theorem last_none_after_broadcast {es : Enc} {g : Ghost} (hI : Inv es g) {p : Label}
+    (h : emittedLabel es p = .broadcast) : (checkLabelReUse es p).2.last = none := by
+  have hp : p = .broadcast := by
+    rcases emittedLabel_cases es p with h1 | h1
+    · rw [← h1, h]
+    · rw [h1] at h; cases h
+  subst hp
+  unfold emittedLabel at h
+  rcases checkLabelReUse_spec es .broadcast with ⟨_, _, _, heq⟩ | ⟨_, _, _, heq⟩ |
+    ⟨_, _, _, _, heq⟩ | ⟨_, _, heq⟩ | ⟨hu, heq⟩
+  · rw [heq] at h; cases h
+  · rw [heq] at h; cases h
+  · rw [heq]; simp [newLast]
+  · rw [heq]; simp [newLast]
+  · rw [heq]; exact hI.off_last hu
+
+/-- The counter moves by at most one, and only below the maximum. -/
+theorem checkLabelReUse_incr (es : Enc) (l : Label) :
+    (checkLabelReUse es l).2.reCur ≤ es.reCur + 1 ∧
+    ((checkLabelReUse es l).2.reCur = es.reCur + 1 → es.reCur < es.reMax) := by
+  rcases checkLabelReUse_spec es l with ⟨_, _, _, heq⟩ | ⟨_, _, hc, heq⟩ |
+    ⟨_, _, _, _, heq⟩ | ⟨_, _, heq⟩ | ⟨hu, heq⟩ <;> rw [heq] <;> simp <;> omega
+
+/-- The configured maximum is one of the values passed to `enableMax` (or 0). -/
+theorem reMax_le_run {es : Enc} {B : Nat} (h : es.reMax ≤ B) {ops : List SOp}
+    (hn : ∀ n, SOp.enableMax n ∈ ops → n ≤ B) : (srun es ops).reMax ≤ B := by
+  induction ops generalizing es with
+  | nil => exact h
+  | cons op ops ih =>
+    refine ih ?_ (fun n hn' => hn n (List.mem_cons_of_mem _ hn'))
+    cases op with
+    | send l ok =>
+      cases ok
+      · exact h
+      · simp only [sstep]; rw [(checkLabelReUse_fields es l).2]; exact h
+    | reset => exact h
+    | disable => exact Nat.zero_le _
+    | enable => exact Nat.zero_le _
+    | enableMax n => exact hn n (List.mem_cons_self ..)
+
+/-! ### Histories from a fresh encapsulator -/
+
+/-- Encapsulator after the history `h`, starting from `Encapsulator::new`. -/
+def stateAfter (h : List SOp) : Enc := srun Enc.new h
+
+/-- Ghost state of the trace of `h`. -/
+def ghostAfter (h : List SOp) : Ghost := ghostFrom Ghost.init (events Enc.new h)
+
+/-- Label on the wire if, after `h`, a call for `l` succeeds. -/
+def emitAfter (h : List SOp) (l : Label) : Label := emittedLabel (stateAfter h) l
+
+theorem inv_after (h : List SOp) : Inv (stateAfter h) (ghostAfter h) := Inv.init.run h
+
+theorem stateAfter_append (a b : List SOp) : stateAfter (a ++ b) = srun (stateAfter a) b :=
+  srun_append _ _ _
+
+theorem ghostAfter_append (a b : List SOp) :
+    ghostAfter (a ++ b) = ghostFrom (ghostAfter a) (events (stateAfter a) b) := by
+  simp [ghostAfter, stateAfter, events_append, ghostFrom_append]
+
+theorem sstep_send_true (es : Enc) (l : Label) :
+    (sstep es (.send l true)).2 = some (emittedLabel es l) := rfl
+
 end Gse
